@@ -155,6 +155,40 @@ func init() {
 	reg("verifnd.IsAssumeFailed", func(w *World, t *Thread, fr *frame, fn *ssa.Function, args []Value) Value {
 		return w.tt.F
 	})
+	reg("verifnd.And", func(w *World, t *Thread, fr *frame, fn *ssa.Function, args []Value) Value {
+		var ts []*Term
+		for _, a := range args[0].([]Value) {
+			ts = append(ts, a.(*Term))
+		}
+		return w.tt.And(ts...)
+	})
+	reg("verifnd.Or", func(w *World, t *Thread, fr *frame, fn *ssa.Function, args []Value) Value {
+		var ts []*Term
+		for _, a := range args[0].([]Value) {
+			ts = append(ts, a.(*Term))
+		}
+		return w.tt.Or(ts...)
+	})
+	reg("verifnd.Implies", func(w *World, t *Thread, fr *frame, fn *ssa.Function, args []Value) Value {
+		return w.tt.Implies(args[0].(*Term), args[1].(*Term))
+	})
+	reg("verifnd.Ite", func(w *World, t *Thread, fr *frame, fn *ssa.Function, args []Value) Value {
+		return w.tt.Ite(args[0].(*Term), args[1].(*Term), args[2].(*Term))
+	})
+	reg("verifnd.BytesEq", func(w *World, t *Thread, fr *frame, fn *ssa.Function, args []Value) Value {
+		a, b := w.bytesOf(args[0]), w.bytesOf(args[1])
+		if len(a) != len(b) {
+			return w.tt.F
+		}
+		return w.strEq(w.mkStr(a), w.mkStr(b))
+	})
+	reg("verifnd.MaxSymAlloc", func(w *World, t *Thread, fr *frame, fn *ssa.Function, args []Value) Value {
+		w.ext["maxsymalloc"] = args[0].(*Term)
+		return nil
+	})
+	reg("verifnd.Thorough", func(w *World, t *Thread, fr *frame, fn *ssa.Function, args []Value) Value {
+		return w.tt.Bool(currentTier == "thorough")
+	})
 	reg("verifnd.Reset", func(w *World, t *Thread, fr *frame, fn *ssa.Function, args []Value) Value { return nil })
 }
 
